@@ -58,8 +58,22 @@ TEXTS_PLAIN = ['hello', '', 'plain text with spaces', 'caf\xe9 ☃ 日本', 'a\n
                'key: value', 'not {json}', 'a < b & c > d', 'ends with }', 'tab\tsep', '\x00\x01\x7f']
 TEXTS_HTML = ['<html><body>hi</body></html>', '<!doctype html><html><head><title>t</title></head><body>é</body></html>',
               '<!DOCTYPE html>\n<html lang="en"><body><p>x</p></body></html>', '<html>\n</html>']
-TEXTS_DONTCARE = [' {"a": 1}', '{"a": 1}\n', '{oops}', '[1, 2', '[not json]', 'text then <html> later ' + 'x' * 300 + '<html>',
-                  '{}x{}', '[]]', '{"a": 1}]', '﻿{"a": 1}']
+# JSON text with whitespace around it is JSON text (RFC 8259: ws value ws)
+TEXTS_JSON_PADDED = [' {"a": 1}', '{"a": 1}\n', '\n[1, 2, 3]\n', '\t{"k": [1, {"z": null}]}  ', '[]\r\n', '  {}']
+# not JSON, and the outermost characters are not a matching pair of brackets: "other text"
+TEXTS_BROKEN_JSON = ['[1, 2', '{"a": 1}]', '[INFO] reloaded config {debug: true}', '{a]', '[1, 2}', '{"a": 1]', '{"a": 1', '[[1, 2}',
+                     '{x} and [y', ']', '}', '[', '{', '{"a": 1} trailing', 'leading [1]x', '[warn] disk 91% {sda1}\n']
+# not JSON but wrapped in a matching pair of brackets: _guess_json looks at the outermost characters only (known finding)
+TEXTS_BRACKETED = ['{oops}', '[not json]', '{}x{}', '[]]', '[INFO] started [ok]', '{{template}}', '{a: 1}', "{'a': 1}", '[1, 2,]', ' {oops} ']
+# left to the implementation: a byte-order mark before JSON (RFC 8259 lets parsers choose), markup far from the start
+TEXTS_DONTCARE = ['\ufeff{"a": 1}', 'text then <html> later ' + 'x' * 300 + '<html>']
+
+
+def is_json_container_text(text):
+    try:
+        return isinstance(json.loads(text), (dict, list))
+    except ValueError:
+        return False
 
 
 def json_native(rng, depth=0):
@@ -110,7 +124,10 @@ def exotic(rng, depth=0):
         return {'p': Plain('x')}, {'p': '<Plain x>'}
     if r == 7:
         return frozenset(['only']), ['only']
-    return {'bytes': b'raw', 'n': 1}, None
+    # bytes inside containers: any octets, not only UTF-8 text
+    raw = rng.pick([b'raw', b'', b'\xff\xfe\x00', 'caf\xe9'.encode('latin-1'), bytes(range(120, 140)), b'\x89PNG\r\n\x1a\n', bytearray(b'\xc3\x28'),
+                    b'\x80' * 40])
+    return rng.pick([{'bytes': raw, 'n': 1}, [raw, 'text'], {'nested': {'digest': raw}}, [[raw]], (raw,)]), None
 
 
 class Tok(HTMLParser):
@@ -168,7 +185,7 @@ def short(v):
 
 
 def judge_basic_text(sh, rng):
-    klass = rng.pick(['json', 'html', 'plain', 'dontcare'])
+    klass = rng.pick(['json', 'json', 'html', 'plain', 'json-padded', 'broken-json', 'bracketed', 'dontcare'])
     as_bytes = rng.chance(0.3)
     if klass == 'json':
         text = json.dumps(rng.pick([json_native(rng), {'a': json_native(rng)}, [json_native(rng)]]) if rng.chance(0.8) else rng.pick([{}, []]),
@@ -186,15 +203,36 @@ def judge_basic_text(sh, rng):
         text, want = rng.pick(TEXTS_HTML), 'text/html'
     elif klass == 'plain':
         text, want = rng.pick(TEXTS_PLAIN), 'text/plain'
+    elif klass == 'json-padded':
+        text, want = rng.pick(TEXTS_JSON_PADDED), 'application/json'
+        if rng.chance(0.4):
+            text = rng.pick(['', ' ', '\n', '\r\n\t']) + json.dumps(json_native(rng, 1) if rng.chance(0.5) else {'a': [1, 2]}, indent=rng.pick([None, 1])) + rng.pick(['\n', ' ', '\n\n'])
+            if text.strip()[:1] not in ('{', '['):
+                text = ' [' + text.strip() + ']\n'
+    elif klass == 'broken-json':
+        text, want = rng.pick(TEXTS_BROKEN_JSON), 'text/plain'
+        if rng.chance(0.4):
+            # a JSON document with its closing bracket swapped or cut
+            good = json.dumps(rng.pick([{'a': json_native(rng, 1)}, [json_native(rng, 1), 1]]))
+            text = rng.pick([good[:-1] + ('}' if good[-1] == ']' else ']'), good[:-1], good + 'x', 'x' + good])
+            if '<html' in text:
+                text = '[1, 2}'
+            if text.strip()[:1] + text.strip()[-1:] in ('{}', '[]'):
+                klass = 'bracketed'
+    elif klass == 'bracketed':
+        text, want = rng.pick(TEXTS_BRACKETED), 'text/plain'
     else:
         text, want = rng.pick(TEXTS_DONTCARE), None
+    assert klass not in ('json', 'json-padded') or is_json_container_text(text), text
+    assert klass not in ('broken-json', 'bracketed') or not is_json_container_text(text), text
     value = text.encode('utf8') if as_bytes else text
     query = rng.pick(['', '', 'format=json', 'format=html'])
     accept = rng.pick([None, None, 'text/html', 'application/json', '*/*'])
     ex = render('/basic', value, query, accept)
     case = {'renderer': 'basic', 'value': short(value), 'query': query, 'accept': accept}
     sh.case(case, nontrivial=klass != 'plain' or not text.isascii(), klass='basic-text:' + klass, sample=dict(case, status=ex.status, ctype=mime(ex)))
-    sh.hit('basic:bytes' if as_bytes else 'basic:text-' + {'dontcare': 'plain'}.get(klass, klass))
+    sh.hit('basic:bytes' if as_bytes else 'basic:text-' + {'dontcare': 'plain', 'json-padded': 'json', 'bracketed': 'plain'}.get(klass, klass))
+    sh.hit('basic:text-class-' + klass)
     if ex.exc is not None or ex.status != 200:
         sh.violation('C17/basic-not-200:text', 'render_basic(%s) -> status %s %s %r' % (short(value), ex.status, probe.safe_repr(ex.exc) if ex.exc else '', ex.body[:160]), case)
         return
@@ -202,6 +240,10 @@ def judge_basic_text(sh, rng):
         sh.violation('C17/basic-text-altered', 'render_basic(%s) changed the text: %r' % (short(value), ex.body[:120]), case)
         return
     sh.hit('label:' + mime(ex))
+    if klass == 'bracketed' and mime(ex) == 'application/json':
+        # the known limit of the guess: only the outermost characters are looked at
+        sh.violation('C17/bracketed-non-json-text-labelled-json', 'render_basic(%s) labelled application/json although the text does not parse as JSON' % short(value), case)
+        return
     if want and mime(ex) != want:
         sh.violation('C17/basic-text-mislabelled:%s-as-%s' % (klass, mime(ex)), 'render_basic(%s) labelled %s, expected %s' % (short(value), mime(ex), want), case)
 
